@@ -1,7 +1,6 @@
 # Claims table, exec'd by gen_manifest.py.
 PENDING.update({
  "C02": "check not built yet in this round (planned: builder over a fault-injecting sink, DESIGN section 4)",
- "C08": "check not built yet in this round (planned: zonestore simulation, DESIGN section 4)",
  "C10": "check not built yet in this round (planned: xfr simulation, DESIGN section 4)",
  "C11": "check not built yet in this round (planned: tsig simulation, DESIGN section 4)",
  "C14": "check not built yet in this round (planned: validator simulation, DESIGN section 4)",
@@ -23,4 +22,10 @@ claim("C09", "exploration",
       "Seeded exploration of reader/writer interleavings at operation granularity over the real in-memory zone store: pinned readers re-observe walk() and query answers while writers (low-level interface and ZoneUpdater) update, remove, replace, commit with/without serial bump, or abort by drop; new readers must walk exactly the last committed content of a multi-version model, their answers must consist of that version's records, writers must be serialised, aborts invisible. Evidence, not proof; one known finding (unversioned node creation visible to pinned readers) is reported as KNOWN-FINDING.",
       "Interleavings are chosen at API-call granularity on one thread; lock-level schedules inside one zone operation (parking_lot RwLocks, real threads) are not explored. The content model covers plain RRset operations. Trusted: tokio::sync::Mutex, the model and observers in /verif/sim.",
       "deterministic simulation (seeded task scheduler) with a multi-version reference model and self-consistency of pinned readers",
+      "DESIGN.md section 4, C08/C09")
+
+claim("C08", "exploration",
+      "Seeded exploration of zone contents and update histories: legal zones with wildcards, empty non-terminals, CNAMEs, delegations (DS, glue, occluded names) are built directly and then evolved by update batches (add/delete/delete-name/full replacement, ZoneUpdater or low-level interface, aborts); afterwards every (qname, qtype) of the universe is asked of the zone with history and of a zone built directly from the same records; both are compared with each other (history independence) and with an executable RFC 1034 section 4.3.2 / RFC 4592 reference lookup. Four genuine history-dependence defects are reported as KNOWN-FINDING by root cause; any deviation without such a cause is a violation. Evidence, not proof.",
+      "Histories are sequential (no concurrency needed for this property); 'crash' = writer/updater dropped before commit. Trusted: the reference lookup and workload generator in /verif/sim; qtype ANY, non-required additional data and the negative-answer SOA TTL are not compared (RFC latitude).",
+      "deterministic simulation of update/abort histories with differential rebuild and an executable RFC reference model",
       "DESIGN.md section 4, C08/C09")
